@@ -46,6 +46,11 @@ def main(argv):
     for s in range(1000, 1000 + seeds):
         res = [_batch(prop, s, runs, 1), _batch(prop, s, runs, 16), _batch(prop, s, runs, 16),
                _batch(prop, s, runs, 4, hashseed=12345)]
+        if any('wall cap' in out for _, _, out in res):
+            # a batch cut short by the tier's wall-clock cap (slow single-worker leg on a loaded machine) holds fewer
+            # runs: its digest is not comparable -- neither agreement nor divergence
+            print(f'seed {s}: a leg was truncated by the wall-clock cap, not comparable (use fewer --runs)')
+            continue
         digs = {d for d, _, _ in res}
         ok = len(digs) == 1 and None not in digs
         print(f'seed {s}: digests {[d for d, _, _ in res]} rc={[rc for _, rc, _ in res]} {"OK" if ok else "DIVERGED"}')
